@@ -71,11 +71,13 @@ def op_bx(cpu, f):
 
 
 def op_bxj(cpu, f):
-    # Jazelle entry and the HSTR.TJDBX trap are outside the specification (implementation defined / mock)
+    # Jazelle entry is outside the specification (implementation defined / mock)
     if cpu.iset != 'arm':
         cpu.UNPREDICTABLE(it_rule_last(cpu))
-    cpu.UNPREDICTABLE(bit(cpu.st['jmcr'], 0) == 1)
-    cpu.UNPREDICTABLE(land(cpu.cfg('have_virt_ext'), bit(cpu.st['hstr'], 17) == 1))
+    # HSTR.TJDBX: a Non-secure BXJ outside Hyp mode is trapped to Hyp mode - "an exception is taken instead" (as for WFE/WFI)
+    trap = land(cpu.cfg('have_virt_ext'), lnot(ST.is_secure(cpu.st)), cpu.mode() != ST.HYP, bit(cpu.st['hstr'], 17) == 1)
+    cpu.UNDEFINED(trap)
+    cpu.UNPREDICTABLE(land(lnot(trap), bit(cpu.st['jmcr'], 0) == 1))
     cpu.bx_write_pc(cpu.R(f['Rm']))
 
 
